@@ -75,3 +75,127 @@ Print Assumptions redo_noop_when_empty.
    story); here: the hypotheses of redo_undo are met by any state after one push *)
 Example wf_after_push : forall c, wf_undo (mkES c (push50 c []) [] [] []) /\ push50 c [] <> [].
 Proof. intros c. split; [unfold wf_undo, MAXUNDO; simpl; repeat constructor|discriminate]. Qed.
+
+(* =========================================================================================== *)
+(* Restore points and SHARED objects: the snapshot as copy.deepcopy with one memo (Codec/DeepCopy.v) *)
+(* =========================================================================================== *)
+From Bardic Require Import Cells CellsProofs DeepCopy DeepCopyCheck DeepCopyProofs.
+
+(* --- C04: the undo/redo snapshot is copy.deepcopy(state) with ONE memo (engine._copy_state) ------------------ *)
+
+(* the snapshot is the live state with every cell renamed, injectively, into new identities n .. n'-1 *)
+Theorem snapshot_is_injective_renaming : forall s n,
+  consistent s ->
+  exists r, (forall j k, In j (ids_state s) -> In k (ids_state s) -> r j = r k -> j = k)
+            /\ (forall k, In k (ids_state s) -> n <= r k < fst (fst (deepcopy_state n s)))
+            /\ snapshot n s = rename_state r s.
+Proof. exact snapshot_is_renaming. Qed.
+Print Assumptions snapshot_is_injective_renaming.
+
+(* (1) it uses only new cells *)
+Theorem snapshot_uses_only_new_cells : forall s n,
+  consistent s ->
+  n <= fst (fst (deepcopy_state n s))
+  /\ in_range n (fst (fst (deepcopy_state n s))) (ids_state (snapshot n s)).
+Proof. exact snapshot_fresh. Qed.
+Print Assumptions snapshot_uses_only_new_cells.
+
+(* later play (an in-place mutation of any cell of the running game) never alters an earlier restore point *)
+Theorem later_play_never_alters_restore_point : forall s n i f,
+  consistent s -> i < n -> mutate_state i f (snapshot n s) = snapshot n s.
+Proof. exact later_play_keeps_snapshot_l. Qed.
+Print Assumptions later_play_never_alters_restore_point.
+
+(* ... however long the play *)
+Theorem restore_point_survives_any_later_play : forall s n ops,
+  consistent s ->
+  Forall (fun op => ~ (n <= fst op < fst (fst (deepcopy_state n s)))) ops ->
+  play ops (snapshot n s) = snapshot n s.
+Proof. exact later_play_sequence. Qed.
+Print Assumptions restore_point_survives_any_later_play.
+
+(* and mutating a cell of the restore point does not change the running game *)
+Theorem editing_restore_point_keeps_game : forall s n j f,
+  consistent s -> Forall (fun i => i < n) (ids_state s) -> In j (ids_state (snapshot n s)) ->
+  mutate_state j f s = s.
+Proof. exact editing_snapshot_keeps_game_l. Qed.
+Print Assumptions editing_restore_point_keeps_game.
+
+(* (2) the restore point denotes the same value *)
+Theorem snapshot_denotes_same_value : forall s n, consistent s -> shape_state (snapshot n s) = shape_state s.
+Proof. exact snapshot_shape. Qed.
+Print Assumptions snapshot_denotes_same_value.
+
+(* (3) sharing is preserved exactly *)
+Theorem snapshot_keeps_sharing_pattern : forall s n,
+  consistent s -> sharing_pattern (snapshot n s) = sharing_pattern s.
+Proof. exact snapshot_sharing_pattern. Qed.
+Print Assumptions snapshot_keeps_sharing_pattern.
+
+Theorem snapshot_same_cell_iff : forall s n,
+  consistent s ->
+  length (ids_state (snapshot n s)) = length (ids_state s)
+  /\ forall p q, p < length (ids_state s) -> q < length (ids_state s) ->
+       (nth_error (ids_state (snapshot n s)) p = nth_error (ids_state (snapshot n s)) q
+        <-> nth_error (ids_state s) p = nth_error (ids_state s) q).
+Proof. exact snapshot_sharing_iff. Qed.
+Print Assumptions snapshot_same_cell_iff.
+
+(* playing the same in-place mutation after a restore behaves as it did originally *)
+Theorem replay_after_restore : forall s n,
+  consistent s ->
+  exists r g,
+    snapshot n s = rename_state r s
+    /\ (forall k, In k (ids_state s) -> g (r k) = k)
+    /\ forall i f, In i (ids_state s) ->
+         mutate_state (r i) (conj r g f) (snapshot n s) = rename_state r (mutate_state i f s).
+Proof. exact replay_on_snapshot. Qed.
+Print Assumptions replay_after_restore.
+
+Theorem replay_after_restore_same_value : forall s n,
+  consistent s ->
+  exists r, snapshot n s = rename_state r s /\
+    forall i f, In i (ids_state s) -> (forall c, f (rename r c) = rename r (f c)) ->
+      mutate_state (r i) f (snapshot n s) = rename_state r (mutate_state i f s)
+      /\ shape_state (mutate_state (r i) f (snapshot n s)) = shape_state (mutate_state i f s).
+Proof. exact replay_natural. Qed.
+Print Assumptions replay_after_restore_same_value.
+
+(* a restore point is again a well-formed state *)
+Theorem snapshot_is_consistent : forall s n, consistent s -> consistent (snapshot n s).
+Proof. exact snapshot_consistent. Qed.
+Print Assumptions snapshot_is_consistent.
+
+(* a correspondence case accepted by DeepCopyCheck.dcase_bad: the real copy IS the model's snapshot *)
+Theorem accepted_case_is_snapshot : forall s k real,
+  dcase_bad (s, k, real) = false ->
+  consistent s /\ Forall (fun i => i < k) (ids_state s) /\ real = snapshot k s.
+Proof. exact dcase_ok_meaning. Qed.
+Print Assumptions accepted_case_is_snapshot.
+
+(* (4) the theorem has content: copying each variable with its own memo (seeded change C04_3) is NOT a renaming *)
+Theorem per_variable_copy_splits_shared_objects_refuted :
+  exists s n, consistent s /\ Forall (fun i => i < n) (ids_state s)
+    /\ (~ exists r, snd (copy_per_variable n s) = rename_state r s)
+    /\ sharing_pattern (snd (copy_per_variable n s)) <> sharing_pattern s.
+Proof. exact per_variable_copy_refuted. Qed.
+Print Assumptions per_variable_copy_splits_shared_objects_refuted.
+
+(* non-vacuity: inventory and backpack are one list, `seen` holds one dict twice *)
+Example shared_objects_example :
+  consistent shared_state
+  /\ snapshot 10 shared_state
+     = [("inventory"%string, CList 10 [CAtom 1]); ("backpack"%string, CList 10 [CAtom 1]);
+        ("seen"%string, CList 11 [CDict 12 [("n"%string, CAtom 0)]; CDict 12 [("n"%string, CAtom 0)]])]
+  /\ sharing_pattern shared_state = [[0; 1]; [0; 1]; [2]; [3; 4]; [3; 4]]
+  /\ sharing_pattern (snd (copy_per_variable 10 shared_state)) = [[0]; [1]; [2]; [3; 4]; [3; 4]]
+  /\ mutate_state 0 append2 (snapshot 10 shared_state) = snapshot 10 shared_state
+  /\ shape_state (mutate_state 10 append2 (snapshot 10 shared_state)) = shape_state (mutate_state 0 append2 shared_state)
+  /\ (forall j, shape_state (mutate_state j append2 (snd (copy_per_variable 10 shared_state)))
+               <> shape_state (mutate_state 0 append2 shared_state)).
+Proof.
+  destruct per_variable_copy_splits_sharing as [A [_ [_ [P1 [P2 [_ [_ D]]]]]]].
+  destruct one_memo_copy_keeps_sharing as [B1 [_ [B3 [B4 _]]]].
+  repeat split; assumption.
+Qed.
+
